@@ -78,6 +78,16 @@ def header_token_check(header):
 
 def run(chk):
     build_harness()
+    import threading
+    merr = []
+
+    def mrun():
+        try:
+            model_leg(chk)
+        except BaseException as e:      # re-raised after the V leg
+            merr.append(e)
+    mleg = threading.Thread(target=mrun)      # the M leg runs beside the V leg
+    mleg.start()
     items = gather(chk)
     reqs = [{"id": i, "src": qml, "type_name": "Doc", "modes": ["generate"], "ir": True} for i, k, qml, _ in items if k != "gadget"]
     res = translate(reqs, metatypes=[VERIF_METATYPES])
@@ -135,7 +145,9 @@ def run(chk):
         chk.sample({"kind": kind, "qml": qml[-300:]})
     chk.sample({"ir_record": recs[min(5, len(recs) - 1)]}, limit=8)
     chk.cov["trusted_base"] = ["TLC", "observation hook serialisation (harness/src/ir.rs)"]
-    model_leg(chk)
+    mleg.join()
+    if merr:
+        raise merr[0]
 
 
 def norm_operand(a):
